@@ -17,9 +17,12 @@ import (
 	"time"
 
 	"github.com/caddyserver/caddy/v2"
+	"github.com/caddyserver/caddy/v2/caddyconfig"
+	"github.com/caddyserver/caddy/v2/caddyconfig/caddyfile"
 	"go.uber.org/zap"
 
 	"github.com/mholt/caddy-l4/layer4"
+	"github.com/mholt/caddy-l4/modules/l4proxyprotocol"
 	_ "github.com/mholt/caddy-l4/modules/l4proxyprotocol"
 	_ "github.com/mholt/caddy-l4/modules/l4subroute"
 
@@ -154,7 +157,10 @@ type Scn struct {
 	// peer without an IP address is inside no allow list
 	PeerNet string `json:"peer_net,omitempty"`
 	Timeout int    `json:"timeout,omitempty"`
-	Direct  bool   `json:"direct,omitempty"`
+	// Form "caddyfile": the handler's options are written as a Caddyfile block, one allow line per
+	// range (with the timeout line between them), and parsed by the handler's UnmarshalCaddyfile
+	Form   string `json:"form,omitempty"`
+	Direct bool   `json:"direct,omitempty"`
 }
 
 func payload(n int) []byte {
@@ -209,6 +215,23 @@ func build(sc *Scn) *built {
 	}
 	if sc.Timeout > 0 {
 		pp["timeout"] = fmt.Sprintf("%dms", sc.Timeout)
+	}
+	if sc.Form == "caddyfile" {
+		var sb strings.Builder
+		sb.WriteString("proxy_protocol {\n")
+		for i, a := range sc.Allow {
+			fmt.Fprintf(&sb, "\tallow %s\n", a)
+			if i == 0 && sc.Timeout > 0 {
+				fmt.Fprintf(&sb, "\ttimeout %dms\n", sc.Timeout)
+			}
+		}
+		sb.WriteString("}\n")
+		h := &l4proxyprotocol.Handler{}
+		if err := h.UnmarshalCaddyfile(caddyfile.NewTestDispenser(sb.String())); err != nil {
+			panic(fmt.Sprintf("the proxy_protocol block does not parse: %v\n%s", err, sb.String()))
+		}
+		pp = map[string]any{}
+		json.Unmarshal(caddyconfig.JSONModuleObject(h, "handler", "proxy_protocol", nil), &pp)
 	}
 	first := []map[string]any{{"proxy_protocol": map[string]any{}}}
 	if sc.Need > 0 {
@@ -400,6 +423,12 @@ func scenarios(tier string, yield func(any) bool) {
 							return
 						}
 					}
+					// the allow list written as a Caddyfile block, one line per range
+					if pl == 5 && len(al) >= 1 {
+						if !yield(&Scn{H: h, Payload: pl, Allow: al, Peer: peer, Timeout: 500, Form: "caddyfile"}) {
+							return
+						}
+					}
 					// other kinds of socket peer
 					if pl == 5 && len(al) <= 1 && !strings.Contains(peer, "[") {
 						for _, pn := range []string{"udp", "unix"} {
@@ -436,7 +465,7 @@ func bounds(tier string, sc *Scn) explore.Bounds {
 	b := explore.DefaultBounds(1)
 	hl := len(sc.H.Encode())
 	switch {
-	case tier != "thorough" && (sc.PeerNet != "" || sc.Timeout > 0 || dupOrMixed(sc.Allow)):
+	case tier != "thorough" && (sc.PeerNet != "" || sc.Timeout > 0 || sc.Form != "" || dupOrMixed(sc.Allow)):
 		// dimensions that do not interact with segmentation: two read deviations
 		b[explore.KRead] = 2
 	case hl+sc.Payload <= 40:
